@@ -431,3 +431,81 @@ Theorem mp_formula : forall nt T phi,
                   = 1 - qsum (map (fun i => qprod (map (H i) (ids_at nt i))) (n_nodes nt))
                         / inject_Z (Z.of_nat (length (n_nodes nt)))).
 Proof. intros. repeat split. Qed.
+
+(* ================================================================== *)
+(* 8. the message-passing iterate: messages decrease, the value increases with phi *)
+Definition Hle (H' H : Hmap) : Prop := forall v m, 0 <= H' v m <= H v m /\ H v m <= 1.
+
+Lemma qprod_map_mono : forall {X} (f f' : X -> Q) l,
+    (forall x, 0 <= f' x <= f x /\ f x <= 1) ->
+    0 <= qprod (map f' l) <= qprod (map f l) /\ qprod (map f l) <= 1.
+Proof.
+  intros X f f' l Hf. induction l as [|x l IH]; cbn [map].
+  - rewrite qprod_nil. lra.
+  - rewrite !qprod_cons. destruct IH as [[I0 I1] I2]. destruct (Hf x) as [[F0 F1] F2]. nra.
+Qed.
+
+Section MonoMP.
+  Variables (nt : net) (phi phi' : Q).
+  Hypotheses (H0p : 0 <= phi) (Hpp : phi <= phi') (H1p : phi' <= 1).
+
+  Lemma calc_mono : forall (H' H : Hmap) focal id, Hle H' H ->
+      Hle (fst (calc eqn_spec nt phi' (H', tt) focal id)) (fst (calc eqn_spec nt phi (H, tt) focal id)).
+  Proof.
+    intros H' H focal id HH v m. unfold calc, eqn_spec. cbn [fst snd]. unfold upd.
+    destruct (Nat.eqb v focal && Nat.eqb m id)%bool; [|apply HH].
+    set (g := motif_graph (find_motif nt id)). set (vm := m_verts (find_motif nt id)).
+    assert (Hu : forall j, 0 <= u_of nt H' vm j <= u_of nt H vm j /\ u_of nt H vm j <= 1).
+    { intros j. unfold u_of. apply qprod_map_mono. intros x. apply HH. }
+    split; [split|].
+    - apply (exact_in_unit g focal phi' (u_of nt H' vm)); [lra|].
+      intros j. destruct (Hu j) as [[U0 U1] U2]. lra.
+    - apply expectation_mono; try assumption; intros j; destruct (Hu j) as [[U0 U1] U2]; lra.
+    - apply (exact_in_unit g focal phi (u_of nt H vm)); [lra|].
+      intros j. destruct (Hu j) as [[U0 U1] U2]. lra.
+  Qed.
+
+  Lemma unit_state : forall (hs : Hmap * unit), hs = (fst hs, tt).
+  Proof. intros [H []]. reflexivity. Qed.
+
+  Lemma sweep_mono : forall (hs' hs : Hmap * unit), Hle (fst hs') (fst hs) ->
+      Hle (fst (sweep eqn_spec nt phi' hs')) (fst (sweep eqn_spec nt phi hs)).
+  Proof.
+    intros hs' hs. unfold sweep. generalize (n_sweep nt). intros l. revert hs' hs.
+    induction l as [|[[i j] id] l IH]; intros hs' hs HH; cbn [fold_left]; [exact HH|].
+    apply IH.
+    rewrite (unit_state (calc eqn_spec nt phi' hs' i id)), (unit_state (calc eqn_spec nt phi hs i id)).
+    apply calc_mono.
+    rewrite (unit_state hs'), (unit_state hs). apply calc_mono. exact HH.
+  Qed.
+
+  Lemma sweeps_mono : forall T (hs' hs : Hmap * unit), Hle (fst hs') (fst hs) ->
+      Hle (fst (sweeps eqn_spec T nt phi' hs')) (fst (sweeps eqn_spec T nt phi hs)).
+  Proof. induction T as [|T IH]; intros hs' hs HH; cbn [sweeps]; [exact HH|]. apply IH, sweep_mono, HH. Qed.
+
+  Lemma qsum_map_le : forall {X} (f f' : X -> Q) l, (forall x, f' x <= f x) -> qsum (map f' l) <= qsum (map f l).
+  Proof.
+    intros X f f' l Hf. induction l as [|x l IH]; cbn [map]; [lra|].
+    rewrite !qsum_cons. specialize (Hf x). lra.
+  Qed.
+
+  Theorem spec_monotone : forall T, mp_spec nt T phi <= mp_spec nt T phi'.
+  Proof.
+    intros T. unfold mp_spec, mp_query. cbn [fst]. unfold result, outer_sum.
+    assert (HH : Hle (fst (sweeps eqn_spec T nt phi' (H0, tt))) (fst (sweeps eqn_spec T nt phi (H0, tt)))).
+    { apply sweeps_mono. intros v m. unfold H0. cbn [fst]. lra. }
+    set (Hb := fst (sweeps eqn_spec T nt phi' (H0, tt))) in *.
+    set (Ha := fst (sweeps eqn_spec T nt phi (H0, tt))) in *.
+    assert (Hs : qsum (map (fun i => qprod (map (Hb i) (ids_at nt i))) (n_nodes nt))
+                 <= qsum (map (fun i => qprod (map (Ha i) (ids_at nt i))) (n_nodes nt))).
+    { apply qsum_map_le. intros i.
+      destruct (qprod_map_mono (Ha i) (Hb i) (ids_at nt i) (fun m => HH i m)) as [[P0 P1] P2]. exact P1. }
+    set (sb := qsum _) in *. set (sa := qsum (map (fun i => qprod (map (Ha i) (ids_at nt i))) (n_nodes nt))) in *.
+    set (n := inject_Z (Z.of_nat (length (n_nodes nt)))).
+    assert (Hn : 0 <= n).
+    { unfold n. change 0 with (inject_Z 0). rewrite <- Zle_Qle. lia. }
+    assert (Hd : sb / n <= sa / n).
+    { unfold Qdiv. apply Qmult_le_compat_r; [exact Hs|]. apply Qinv_le_0_compat, Hn. }
+    lra.
+  Qed.
+End MonoMP.
